@@ -4,7 +4,7 @@
 (* every output.  Serves C03, C12, C06.                                     *)
 EXTENDS MCGen
 OpsV == {"GoNew", "Sentinel", "Errno", "New", "Newf", "NewfW", "PkgNew", "Unimplemented",
-         "AssertionFailedf", "ULeaf", "Wrap", "Wrapf", "WithMessage", "WithStack", "WithHint",
+         "AssertionFailedf", "ULeaf", "Wrap", "Wrapf", "WithMessage", "WithMessagef", "WithHintf", "WithDetailf", "UnimplementedErrorf",  "WithStack", "WithHint",
          "WithDetail", "WithSafeDetails", "WithTelemetry", "WithDomain", "WithIssueLink",
          "WithContextTags", "WithAssertionFailure", "Mark", "WithSecondaryError", "CombineErrors",
          "Handled", "HandledWithMessage", "HandledInDomain", "EnsureNotInDomain", "HandledInDomainWithMessage",
